@@ -62,7 +62,7 @@ PROBES = [
     '<t:wd xmlns:t="urn:t" xmlns:c="urn:c" c:x="1"/>', '<t:w1 xmlns:t="urn:t" xmlns:c="urn:c" xmlns:a="urn:a" c:x="1" a:y="2"/>', '<t:wb xmlns:t="urn:t" xmlns:c="urn:c" xmlns:d="urn:d" c:x="1" d:z="3"/>',
     '<t:root xmlns:t="urn:t"><t:head><t:v>7</t:v></t:head><t:x>7</t:x></t:root>',        # a keyref on the root that refers to a key declared on another element
 ]
-KINDS = ['permute', 'split', 'spell', 'twice', 'copy', 'pickle', 'imports', 'same-text']
+KINDS = ['permute', 'split', 'spell', 'twice', 'copy', 'pickle', 'imports', 'same-text', 'nested-base']
 
 
 def summary(s):
@@ -103,6 +103,18 @@ def eval_arrangement(args):
             with warnings.catch_warnings():
                 warnings.simplefilter('ignore')
                 s = cls(os.path.join(d, 'main.xsd'))
+        elif kind == 'nested-base':
+            # main.xsd includes sub/a.xsd, which includes its neighbour sub/b.xsd under one of several spellings; the main schema is given as a path, as a path with the base_url
+            # option, or as text with the base_url option: a relative location resolves from the document that contains it, whatever base the caller named for the main source
+            d = os.path.join(root, f'{ver}_{kind}_{seed}'); os.makedirs(os.path.join(d, 'sub'))
+            parts = [decls[i::3] for i in range(3)]
+            spell = rng.choice(['b.xsd', './b.xsd', '../sub/b.xsd', os.path.join(d, 'sub', 'b.xsd'), 'file://' + os.path.join(d, 'sub', 'b.xsd')])
+            open(os.path.join(d, 'sub', 'b.xsd'), 'w').write(HEAD + ''.join(parts[2]) + '</xs:schema>')
+            open(os.path.join(d, 'sub', 'a.xsd'), 'w').write(HEAD + f'<xs:include schemaLocation="{spell}"/>' + ''.join(parts[1]) + '</xs:schema>')
+            main = HEAD + '<xs:include schemaLocation="sub/a.xsd"/>' + ''.join(parts[0]) + '</xs:schema>'
+            open(os.path.join(d, 'main.xsd'), 'w').write(main)
+            how = seed % 3
+            s = cls(os.path.join(d, 'main.xsd')) if how == 0 else cls(os.path.join(d, 'main.xsd'), base_url=d) if how == 1 else cls(main, base_url=d)
         elif kind == 'twice': s = cls(HEAD + ''.join(decls) + '</xs:schema>'); s.maps.clear(); s.build()
         elif kind == 'copy':
             s0 = cls(HEAD + ''.join(decls) + '</xs:schema>'); maps = copy.copy(s0.maps); maps.build(); s = maps.validator
